@@ -1440,11 +1440,17 @@ pub fn run_client_rtu(_cfg: &ScenCfg, out: &mut RunOut) {
         expected_states.push(1);
     }
     expected_states.push(2);
-    // two back-to-back requests: the second frame respects the inter-character silence for this baud rate
+    // the port was opened with the configured baud rate (what the simulated port recorded; the length of the
+    // inter-frame silence the library derives from it is not a property and is not looked at)
+    if serial::line_baud(PATH) != baud {
+        out.violate("C18", "serial_settings_not_forwarded", format!("configured baud rate {}, the port was opened with {}", baud, serial::line_baud(PATH)));
+        return;
+    }
     let t35 = super::client::t35_ns(baud);
     let mut wl = dec_idx as u64 ^ (baud as u64) << 8 ^ (fails as u64) << 40;
     let n = 2 + choose(4) as usize;
     let mut last_write: Option<u64> = None;
+    let mut sent_so_far: u64 = serial::line_total_from_port(PATH);
     for k in 0..n {
         let req = gen_valid_req(true);
         let unit = 1 + choose(10) as u8;
@@ -1456,20 +1462,12 @@ pub fn run_client_rtu(_cfg: &ScenCfg, out: &mut RunOut) {
             return;
         }
         kernel::settle();
-        let now = kernel::now_ns();
-        let due = match last_write {
-            Some(l) if l + t35 > now => l + t35,
-            _ => now,
-        };
-        kernel::advance_to(due);
-        let w = serial::writes(PATH);
-        let wt = w.last().map(|x| x.0);
-        if wt != Some(due) {
-            out.violate("C18", "serial_settings_not_forwarded", format!("baud {}: frame {} written at {:?}, expected {} (t3.5 = {} ns after the previous write at {:?})", baud, k, wt, due, t35, last_write));
-            return;
-        }
-        last_write = Some(due);
+        // back-to-back requests: give the frame time to leave after whatever silence the library keeps
+        let before = kernel::now_ns();
+        kernel::run_until(|| serial::line_total_from_port(PATH) > sent_so_far, before + 2 * t35 + 10 * MS, 100_000);
+        let _ = (k, &mut last_write);
         let wire = serial::line_take(PATH);
+        sent_so_far += wire.len() as u64;
         let want = rtu_frame(unit, &pdu::encode_req(&req));
         if wire != want {
             out.violate("C18", "wire_differs_from_rust_api", format!("rtu fc={}: wire {} expected {}", req.fc(), hex(&wire), hex(&want)));
